@@ -17,6 +17,13 @@ from a real, verified instance and moves it along the dimensions the custom form
                     hidden regions, loop iter_args - and verifiers do not check that, so resizing there leaves the
                     domain of IR any parser could have produced)
 
+  partial_elem_attrs
+                    per-element attribute arrays (arg_attrs / res_attrs of function-like ops, any present array of
+                    dictionaries with >= 2 entries) filled on a STRICT SUBSET of the positions: some entries carry a
+                    dictionary, the others are empty
+  seg_nonuniform    ops whose variadic operand group is partitioned by a `*segment*` property (cf.switch case operands,
+                    ...): one segment shrunk by one / grown by one / emptied, so that the segments are not uniform
+
 A mutation is kept only if the mutated op verifies (`op.verify()`), and a mutation round only if the whole
 module still verifies, so everything that reaches the oracle is inside the property's domain.  Values for
 added/changed properties come from a pool harvested from the same shard's corpus modules (per (op, property)
@@ -28,7 +35,7 @@ from dataclasses import dataclass
 SEGMENT_NAMES = ("operandSegmentSizes", "resultSegmentSizes", "regionSegmentSizes", "successorSegmentSizes",
                  "operand_segment_sizes", "result_segment_sizes")
 MUTATIONS = ["drop_opt", "add_opt", "default_explicit", "default_changed", "default_removed", "extra_attrs",
-             "var_shrink", "var_grow", "opt_operand_drop", "opt_operand_add"]
+             "var_shrink", "var_grow", "opt_operand_drop", "opt_operand_add", "partial_elem_attrs", "seg_nonuniform"]
 EXTRA_ATTR_SETS = [
     [("xv.extra", "i")],
     [("xv_unit", "u")],
@@ -310,7 +317,105 @@ def mutate_op(op, kind, rng, pool, pick):
         return None
     if kind in ("var_shrink", "var_grow", "opt_operand_drop", "opt_operand_add"):
         return _mutate_operands(op, kind, rng, pick)
+    if kind == "partial_elem_attrs":
+        return _partial_elem_attrs(op, d, defs, pick)
+    if kind == "seg_nonuniform":
+        return _seg_nonuniform(op, d, pick)
     raise ValueError(kind)
+
+
+def _partial_elem_attrs(op, d, defs, pick):
+    from xdsl.dialects import builtin as b
+    targets = []  # (which, key, length)
+    ft = op.properties.get("function_type", op.attributes.get("function_type"))
+    for w, k, pd in defs:
+        cur = (op.properties if w == "p" else op.attributes).get(k)
+        if isinstance(cur, b.ArrayAttr) and len(cur.data) >= 2 and all(isinstance(e, b.DictionaryAttr) for e in cur.data):
+            targets.append((w, k, len(cur.data)))
+        elif cur is None and ft is not None and k in ("arg_attrs", "res_attrs"):
+            try:
+                n = len(list(ft.inputs)) if k == "arg_attrs" else \
+                    (len(list(ft.outputs)) if hasattr(ft, "outputs") else (0 if type(ft.output).__name__ == "LLVMVoidType" else 1))
+            except Exception:  # noqa: BLE001 - not a function type we understand
+                continue
+            if n >= 2:
+                targets.append((w, k, n))
+    if not targets:
+        return None
+    for off in range(len(targets)):
+        w, k, n = targets[(pick + off) % len(targets)]
+        # strict subset of the positions: pattern rotates with pick; at least one filled and one empty entry
+        filled = [((j + pick) % 2 == 0) for j in range(n)]
+        if all(filled) or not any(filled):
+            filled[0] = not filled[0]
+        full = b.DictionaryAttr({"xv.a": b.IntegerAttr(1, b.i32)}) if pick % 3 else b.DictionaryAttr({"xv.u": b.UnitAttr()})
+        v = b.ArrayAttr([full if f else b.DictionaryAttr({}) for f in filled])
+        undo = _dict_mut(op, w, k, v)
+        if op_verifies(op):
+            return Applied("partial_elem_attrs", op.name, k, undo)
+        undo()
+    return None
+
+
+def _seg_nonuniform(op, d, pick):
+    from xdsl.dialects import builtin as b
+    from xdsl.irdl import OptionalDef, VariadicDef
+    if op.regions or not all(hasattr(op, n) for n, _ in d.operands + d.results + d.regions + d.successors):
+        return None
+    groups = [_group(getattr(op, n)) for n, _ in d.operands]
+    if sum(len(g) for g in groups) != len(op.operands):
+        return None
+    cands = []  # (property name, container, values, operand group index)
+    for cont in (op.properties, op.attributes):
+        for k, v in cont.items():
+            if k in SEGMENT_NAMES or "segment" not in k.lower() or not isinstance(v, b.DenseArrayBase):
+                continue
+            try:
+                vals = [int(x) for x in v.get_values()]
+            except Exception:  # noqa: BLE001
+                continue
+            if len(vals) < 1 or any(x < 0 for x in vals):
+                continue
+            gi = [i for i, (n, od) in enumerate(d.operands) if isinstance(od, VariadicDef) and not isinstance(od, OptionalDef)
+                  and len(groups[i]) == sum(vals)]
+            # prefer the group whose name shares the property's prefix (case_operand_segments <-> case_operands)
+            gi.sort(key=lambda i: 0 if k.lower().startswith(d.operands[i][0].lower().rstrip("s")) else 1)
+            if gi:
+                cands.append((k, cont, vals, gi[0], v))
+    if not cands:
+        return None
+    k, cont, vals, gidx, old_attr = cands[pick % len(cands)]
+    grp = groups[gidx]
+    mode = ["shrink", "grow", "empty"][pick % 3]
+    j = (pick // 3) % len(vals)
+    starts = [sum(vals[:i]) for i in range(len(vals))]
+    if mode in ("shrink", "empty"):
+        js = [i for i in range(len(vals)) if vals[i] >= 1]
+        if not js:
+            mode = "grow"
+        else:
+            j = js[(pick // 3) % len(js)]
+    new_vals = list(vals)
+    if mode == "shrink":
+        new_grp = grp[:starts[j] + vals[j] - 1] + grp[starts[j] + vals[j]:]
+        new_vals[j] -= 1
+    elif mode == "empty":
+        new_grp = grp[:starts[j]] + grp[starts[j] + vals[j]:]
+        new_vals[j] = 0
+    else:
+        src = grp[starts[j] + vals[j] - 1] if vals[j] else (grp[0] if grp else (list(op.operands) or [None])[0])
+        if src is None:
+            return None
+        new_grp = grp[:starts[j] + vals[j]] + [src] + grp[starts[j] + vals[j]:]
+        new_vals[j] += 1
+    if len(set(new_vals)) < 2 and len(new_vals) > 1 and new_vals == vals:
+        return None
+    new_attr = b.DenseArrayBase.from_list(old_attr.elt_type, new_vals)
+    which = "p" if cont is op.properties else "a"
+    r = _rebuild(op, d, groups[:gidx] + [new_grp] + groups[gidx + 1:], override={(which, k): new_attr})
+    if r is None:
+        return None
+    return Applied("seg_nonuniform", op.name, k, r)
 
 
 def _mutate_operands(op, kind, rng, pick):
@@ -383,7 +488,7 @@ def _available_values(op):
     return out
 
 
-def _rebuild(op, d, operand_groups):
+def _rebuild(op, d, operand_groups, override=None):
     """Replace `op` in its block by a copy built with `operand_groups` (IRDLOperation.build recomputes segment sizes).
     Returns an undo closure if the new op verifies, else None (nothing changed)."""
     cls = type(op)
@@ -397,6 +502,8 @@ def _rebuild(op, d, operand_groups):
         return None
     props = {k: v for k, v in op.properties.items() if k not in SEGMENT_NAMES}
     attrs = {k: v for k, v in op.attributes.items() if k not in SEGMENT_NAMES}
+    for (which, key), val in (override or {}).items():
+        (props if which == "p" else attrs)[key] = val
     regions = [op.detach_region(0) for _ in range(len(op.regions))]
     reg_groups, p = [], 0
     for (n, rd), sz in zip(d.regions, reg_sizes):
